@@ -111,12 +111,13 @@ type job struct {
 }
 
 type culprit struct {
-	Stream string `json:"stream"`
-	Idx    int    `json:"idx"`
-	Entry  string `json:"entry"`
-	Class  string `json:"class"` // KILLED or TIMEOUT
-	Rc     int    `json:"rc"`
-	Stderr string `json:"stderr"`
+	Stream   string `json:"stream"`
+	Idx      int    `json:"idx"`
+	Entry    string `json:"entry"`
+	Class    string `json:"class"` // KILLED or TIMEOUT
+	Rc       int    `json:"rc"`
+	Stderr   string `json:"stderr"`
+	EnvStart int    `json:"env_start"`
 }
 
 type jobResult struct {
@@ -172,29 +173,44 @@ func fatalTop(stderr string) string {
 	return strings.Join(out, " | ")
 }
 
-// Bounded time on a tree with MANY hanging inputs: after 2 timeouts with the same signature in a stream
-// the remaining children of that stream run with a 1.2 s per-input limit, and after 12 timeouts the
-// rest of the stream is not run at all (reported in the statistics as aborted).
+// Bounded time on a tree with MANY hanging inputs: after 2 timeouts with the same (stream, entry point)
+// signature the remaining children of that stream run with a 1.2 s per-input limit, and after 6 timeouts
+// of one entry point that entry point is switched off for the rest of the stream (the other entry points
+// go on; reported in the statistics).
 var hangMu sync.Mutex
 var hangSig = map[string]int{}
-var hangCount = map[string]int{}
 var hangFast = map[string]bool{}
-var hangAborted = map[string]int{} // stream -> inputs not run
+var hangOff = map[string]map[int]bool{} // stream -> entry points switched off
+var hangAborted = map[string]int{}      // "stream|entry" -> number of timeouts when it was switched off
 
 func noteHang(stream, entry string) {
 	hangMu.Lock()
 	defer hangMu.Unlock()
-	hangSig[stream+"|"+entry]++
-	hangCount[stream]++
-	if hangSig[stream+"|"+entry] >= 2 {
+	k := stream + "|" + entry
+	hangSig[k]++
+	if hangSig[k] >= 2 {
 		hangFast[stream] = true
+	}
+	if hangSig[k] >= 6 {
+		if e := entryIndex(entry); e >= 0 {
+			if hangOff[stream] == nil {
+				hangOff[stream] = map[int]bool{}
+			}
+			hangOff[stream][e] = true
+			hangAborted[k] = hangSig[k]
+		}
 	}
 }
 
-func hangState(stream string) (fast bool, aborted bool) {
+func hangState(stream string) (fast bool, off string) {
 	hangMu.Lock()
 	defer hangMu.Unlock()
-	return hangFast[stream], hangCount[stream] >= 12
+	var l []string
+	for e := range hangOff[stream] {
+		l = append(l, strconv.Itoa(e))
+	}
+	sort.Strings(l)
+	return hangFast[stream], strings.Join(l, ",")
 }
 
 // runJob runs one child over [from,to); on a hard crash it records the culprit and continues
@@ -208,13 +224,9 @@ func runJob(cfg *config, j job) jobResult {
 		if cur.from >= cur.to {
 			continue
 		}
-		if fast, aborted := hangState(cur.stream); cur.only < 0 && !strings.HasPrefix(cur.stream, "file:") && cur.stream != "specials" {
-			if aborted {
-				hangMu.Lock()
-				hangAborted[cur.stream] += cur.to - cur.from
-				hangMu.Unlock()
-				continue
-			}
+		skip := ""
+		if fast, off := hangState(cur.stream); cur.only < 0 && !strings.HasPrefix(cur.stream, "file:") && cur.stream != "specials" {
+			skip = off
 			if fast && cur.timeout > 1200*time.Millisecond {
 				cur.timeout = 1200 * time.Millisecond
 			}
@@ -227,6 +239,9 @@ func runJob(cfg *config, j job) jobResult {
 		args := []string{"--worker", "--stream", cur.stream, "--from", strconv.Itoa(cur.from), "--to", strconv.Itoa(cur.to),
 			"--progress", prog, "--result", rf, "--seed", strconv.FormatUint(cfg.seed, 10), "--tier", cfg.tier,
 			"--repo", cfg.repo, "--only", strconv.Itoa(cur.only), "--input-timeout", strconv.Itoa(int(cur.timeout / time.Millisecond))}
+		if skip != "" {
+			args = append(args, "--skip-entries", skip)
+		}
 		cmd := exec.Command(self, args...)
 		cmd.Dir = cfg.tmp
 		cmd.Env = append(os.Environ(), "GOMAXPROCS=2", "GOGC=200")
@@ -336,7 +351,8 @@ func runJob(cfg *config, j job) jobResult {
 			if entry >= 0 && entry < len(entryNames) {
 				en = entryNames[entry]
 			}
-			res.culprits = append(res.culprits, culprit{Stream: cur.stream, Idx: idx, Entry: en, Class: class, Rc: rc, Stderr: fatalTop(stderr.String())})
+			res.culprits = append(res.culprits, culprit{Stream: cur.stream, Idx: idx, Entry: en, Class: class, Rc: rc, Stderr: fatalTop(stderr.String()),
+				EnvStart: cur.from + ((idx-cur.from)/600)*600})
 			if class == ObsTimeout && cur.only < 0 {
 				noteHang(cur.stream, en)
 			}
@@ -458,6 +474,7 @@ type failure struct {
 	Zygo       map[string]string `json:"cmd_zygo"` // exit status of cmd/zygo on the minimal input
 	Tag        string            `json:"tag"`
 	EnvStart   int               `json:"env_start"`
+	History    []string          `json:"history,omitempty"` // inputs evaluated before it in the same interpreter
 }
 
 func entryIndex(name string) int {
@@ -760,6 +777,7 @@ func parentMain(a lib.Args, cfg *config) {
 			Cases []struct {
 				Input string `json:"input"`
 			} `json:"cases"`
+			History []string `json:"history"`
 		}
 		b, err := os.ReadFile(a.Replay)
 		if err == nil {
@@ -773,9 +791,14 @@ func parentMain(a lib.Args, cfg *config) {
 			texts = append(texts, c.Input)
 		}
 		path := filepath.Join(tmp, "replay.txt")
-		writeFileStream(path, texts)
 		order = []string{"file:" + path}
 		chunk[order[0]] = 1
+		if len(rp.History) > 0 {
+			// a history-dependent failure: the whole history in ONE interpreter, in order
+			texts = rp.History
+			chunk[order[0]] = len(texts)
+		}
+		writeFileStream(path, texts)
 	}
 	for _, name := range order {
 		if len(cfg.streams) > 0 && !cfg.streams[name] {
@@ -884,6 +907,8 @@ func parentMain(a lib.Args, cfg *config) {
 		k := f.Class + "|" + siteKey(f.Class, f.Site)
 		if f.Stream == "specials" {
 			k += "|" + f.Tag
+		} else if f.Class == ObsTimeout {
+			k += "|" + f.Entry + "|" + f.Tag
 		} else if f.Class != ObsPanic && f.Stream == "builtins" {
 			k += "|" + strings.TrimSuffix(f.Tag, ":apply")
 		}
@@ -911,7 +936,7 @@ func parentMain(a lib.Args, cfg *config) {
 	for _, c := range culprits {
 		st := streams[c.Stream]
 		addFailure(failure{Class: c.Class, Entry: c.Entry, Site: c.Stderr, Msg: c.Stderr, Stream: c.Stream, Idx: c.Idx,
-			Input: st.Input(c.Idx), Standalone: false, Tag: st.Tag(c.Idx)})
+			Input: st.Input(c.Idx), Standalone: false, Tag: st.Tag(c.Idx), EnvStart: c.EnvStart})
 	}
 	sort.Strings(keys)
 	var failures []*failure
@@ -931,6 +956,16 @@ func parentMain(a lib.Args, cfg *config) {
 				if f.Stream == "specials" {
 					// already ran alone in its own child; cmd/zygo (default 1 GB Go stack) only in the thorough tier
 					f.Standalone = true
+					if f.Class == ObsTimeout && !strings.HasPrefix(f.Tag, "specials:chan-") {
+						// a probe that is merely slow under machine load: once more, alone, with three times the limit
+						r0 := probe(cfg, []string{f.Input}, EEval, 24*time.Second, "specials", true)
+						if r0[0].Class != ObsTimeout && r0[0].Class != ObsKilled {
+							f.Class = "UNCONFIRMED-" + f.Class
+							return
+						}
+						f.Class = r0[0].Class
+						f.Site, f.Msg = r0[0].Site, r0[0].Msg
+					}
 					if cfg.tier == "thorough" {
 						f.Zygo = runZygo(cfg, f.Minimal, 120*time.Second)
 					}
@@ -959,8 +994,27 @@ func parentMain(a lib.Args, cfg *config) {
 					if f.Class != "POISONED" {
 						r0 := probe(cfg, []string{f.Input}, e0, 3*inputTimeout, f.Stream, true)
 						if r0[0].Class != f.Class {
-							f.Class = "UNCONFIRMED-" + f.Class
+							// not alone: does it repeat after the history of its interpreter (same child, same order)?
 							f.Entries[entryNames[e0]] = r0[0].Class
+							hr := jobResult{}
+							if f.EnvStart >= 0 && f.EnvStart <= f.Idx && !strings.HasPrefix(f.Stream, "file:") {
+								hr = runJob(cfg, job{f.Stream, f.EnvStart, f.Idx + 1, e0, 3 * inputTimeout})
+							}
+							if len(hr.culprits) == 0 {
+								f.Class = "UNCONFIRMED-" + f.Class
+								return
+							}
+							f.Standalone = false
+							f.Idx = hr.culprits[0].Idx
+							f.Input = streams[f.Stream].Input(f.Idx)
+							f.Minimal = f.Input
+							f.Msg = fmt.Sprintf("%s | repeats only after the history of its interpreter: stream %s inputs %d..%d through %s", f.Msg, f.Stream, f.EnvStart, f.Idx, entryNames[e0])
+							n := 0
+							for i := f.EnvStart; i <= f.Idx && n < 700; i++ {
+								f.History = append(f.History, streams[f.Stream].Input(i))
+								n++
+							}
+							f.Zygo = map[string]string{}
 							return
 						}
 					}
@@ -1119,6 +1173,12 @@ func main() {
 			wRes = next()
 		case "--repo":
 			cfg.repo = next()
+		case "--skip-entries":
+			for _, x := range strings.Split(next(), ",") {
+				if e, err := strconv.Atoi(x); err == nil {
+					skipEntries[e] = true
+				}
+			}
 		case "--poison-check":
 			poisonCheck = true
 		case "--no-shrink":
